@@ -83,7 +83,8 @@ PINS = {
     "C02": _SERIAL + _RECV,
     "C03": _REASM + _SERIAL,
     "C04": _STREAMDEC,
-    "C05": _REQ,
+    "C05": _REQ + _RECV + [(II, "CommInterfaceCommon", "data_align"), (DEV, "Device", "channels_en"), (DEV, "Device", "channels_div"),
+                           (DEV, "Device", "channel_get"), (DEV, "DeviceChannel", "__init__")],
     "C06": _INFO + [(COMM, "CommHandler", "_devinfo_get"), (COMM, "CommHandler", "_nxslib_cmninfo"), (COMM, "CommHandler", "_nxslib_chinfo")],
     "C07": _CFG,
     "C08": _FAN,
